@@ -716,6 +716,13 @@ class Interp:
         new = e.params["new_dtype"]
         kf, kt = a.kind, kind_of(new)
         out = map1(lambda x: self.alg.convert(x, kf, kt), a.v)
+        if getattr(self, "model_narrowing", False):
+            try:
+                narrowing = np.issubdtype(np.dtype(new), np.floating) and np.issubdtype(np.dtype(a.dtype), np.floating) and np.dtype(new).itemsize < np.dtype(a.dtype).itemsize
+            except TypeError:  # bfloat16 & co: compare by name
+                narrowing = str(new) in ("bfloat16", "float16") and str(a.dtype) in ("float32", "float64")
+            if narrowing:  # rounding to a narrower float format = an arbitrary (uninterpreted) function of the value: nothing about the result's magnitude is kept
+                out = map1(lambda x: self.alg.unary_uf(f"round_to_{np.dtype(new).name}", x), out)
         if kt == "i" and kf == "i":
             pass  # width changes are not modelled (mathematical integers)
         return SA(out, new)
